@@ -124,10 +124,40 @@ type rpcACL struct {
 func (a *aclDouble) NewRPCACL(ctx context.Context) (subscribe.RPCACL, error) {
 	u, _ := ctx.Value(userKey{}).(int)
 	if u < len(a.spec.FailUser) && a.spec.FailUser[u] {
-		return nil, errors.New("no credentials")
+		kind := ""
+		if u < len(a.spec.FailKind) {
+			kind = a.spec.FailKind[u]
+		}
+		return nil, aclError(kind)
 	}
 	return &rpcACL{a, u}, nil
 }
+
+// aclError builds the error value an ACL backend may fail with: whatever it is or carries,
+// "authorisation could not be established" and the call is rejected as unauthenticated.
+func aclError(kind string) error {
+	switch kind {
+	case "status-unavailable":
+		return status.Error(codes.Unavailable, "acl backend down")
+	case "status-denied":
+		return status.Error(codes.PermissionDenied, "acl backend says no")
+	case "wrapped-status":
+		return fmt.Errorf("acl lookup: %w", status.Error(codes.Unavailable, "acl backend down"))
+	case "status-ok":
+		return okStatusError{}
+	case "canceled":
+		return context.Canceled
+	case "empty-text":
+		return errors.New("")
+	}
+	return errors.New("no credentials")
+}
+
+// okStatusError is an error that carries the gRPC status OK.
+type okStatusError struct{}
+
+func (okStatusError) Error() string              { return "acl: inconsistent backend answer" }
+func (okStatusError) GRPCStatus() *status.Status { return status.New(codes.OK, "") }
 
 func (a *aclDouble) Check(string, string) bool { return true }
 
